@@ -520,7 +520,15 @@ pub fn gen_len(rng: &mut Rng, allow_long: bool) -> usize {
         96..=97 => rng.usize_in(13, 40),
         _ => {
             if allow_long {
-                rng.usize_in(50, 200)
+                match rng.below(20) {
+                    0..=9 => rng.usize_in(50, 200),
+                    // thresholds an index type, a chunk size or a bisection fast path could hinge on
+                    10..=18 => {
+                        let k = rng.usize_in(5, 10) as u32;
+                        (1usize << k) + rng.usize_in(0, 2) - 1
+                    }
+                    _ => *rng.pick(&[4096usize, 65535, 65536, 65537]),
+                }
             } else {
                 rng.usize_in(5, 12)
             }
